@@ -292,6 +292,25 @@ func c09Twin(seed uint64, i int) *scen.Scenario {
 	}
 	sevs := []int{model.Error, model.Warn, model.Info, model.Debug, model.Trace, model.Always, model.OK, model.Success, model.Fail}
 	tk := 0
+	// one episode in three: each logger's caller also owns a group value (twin groups, made and changed by the same
+	// calls: ref 901 goes with logger 1, ref 902 with logger 2). The records of logger 1 carry its group, between
+	// them both groups get the same new members; the probe carries the group. A record is a function of what the
+	// group holds when the call is made, not of whether (or in which state) the group was printed before
+	grouped := r.Chance(1, 3)
+	var members []scen.Arg
+	nm := 0
+	member := func() scen.Arg {
+		nm++
+		return scen.Arg{K: "attr", Key: fmt.Sprintf("%c%d", 'z'-rune(nm%5), nm), Items: []scen.Arg{{K: "i", I: int64(7000 + nm)}}}
+	}
+	groupArg := func(id int) scen.Arg {
+		return scen.Arg{K: "ggroup", Key: "tg", Ref: 900 + id, Items: append([]scen.Arg{}, members...)}
+	}
+	if grouped {
+		for k := r.Range(0, 3); k > 0; k-- {
+			members = append(members, member())
+		}
+	}
 	records := func(n int) {
 		for ; n > 0; n-- {
 			tk++
@@ -300,7 +319,25 @@ func c09Twin(seed uint64, i int) *scen.Scenario {
 			for q := r.Intn(3); q > 0; q-- {
 				op.Args = append(op.Args, scen.Arg{K: "attr", Key: fmt.Sprintf("k%d", r.Intn(9)), Items: []scen.Arg{{K: "i", I: int64(r.Intn(1000))}}})
 			}
+			if grouped && r.Chance(3, 4) {
+				op.Args = append(op.Args, groupArg(1))
+			}
 			sc.Setup = append(sc.Setup, op)
+		}
+	}
+	mutate := func() {
+		kind := scen.Pick(r, []string{"add", "setattr", "setattr", "setattrs"})
+		var more []scen.Arg
+		for k := r.Range(1, 2); k > 0; k-- {
+			more = append(more, member())
+		}
+		for _, id := range []int{1, 2} {
+			sc.Setup = append(sc.Setup, scen.Op{Op: "mutate_group", L: id, Kind: kind, Args: append([]scen.Arg{groupArg(id)}, more...)})
+		}
+		if kind == "setattrs" {
+			members = append([]scen.Arg{}, more...)
+		} else {
+			members = append(members, more...)
 		}
 	}
 	records(r.Range(1, 3))
@@ -312,6 +349,10 @@ func c09Twin(seed uint64, i int) *scen.Scenario {
 			sc.Setup = append(sc.Setup, c2)
 		}
 		records(r.Intn(3))
+		if grouped && r.Chance(2, 3) {
+			mutate()
+			records(r.Intn(3))
+		}
 	}
 	probe := scen.Op{Op: "write_thru", Kind: "pc", Probe: true,
 		Lvl: scen.Pick(r, []int{model.Error, model.Warn, model.Info, model.Debug, model.Trace, model.Always, model.OK, model.Fail}),
@@ -324,9 +365,17 @@ func c09Twin(seed uint64, i int) *scen.Scenario {
 	for _, id := range []int{2, 1} {
 		pr := probe
 		pr.L = id
+		if grouped {
+			pr.Args = append(append([]scen.Arg{}, probe.Args...), groupArg(id))
+		}
 		sc.Setup = append(sc.Setup, pr)
 	}
 	return sc
+}
+
+// c09TwinNorm: the two twins' group values differ in their ref only
+func c09TwinNorm(j string) string {
+	return strings.ReplaceAll(strings.ReplaceAll(j, `"ref":901`, `"ref":900`), `"ref":902`, `"ref":900`)
 }
 
 // c09TwinWellFormed: both loggers are made and configured by the same calls, only logger 1 prints
@@ -346,12 +395,27 @@ func c09TwinWellFormed(sc *scen.Scenario) bool {
 			l := op.L
 			op.L = 0
 			probes[l], _ = jsonOf(&op)
+			probes[l] = c09TwinNorm(probes[l])
+			if j, _ := jsonOf(&sc.Setup[i]); strings.Contains(j, `"ref":90`) && !strings.Contains(j, fmt.Sprintf(`"ref":%d`, 900+l)) {
+				return false // a logger's calls carry its own caller's group
+			}
 		case seenProbe:
 			return false
 		case op.Op == "log":
 			if op.L != 1 {
 				return false
 			}
+			if j, _ := jsonOf(&op); strings.Contains(j, `"ref":902`) {
+				return false
+			}
+		case op.Op == "mutate_group":
+			if op.L < 1 || op.L > 2 || len(op.Args) < 1 || op.Args[0].Ref != 900+op.L {
+				return false
+			}
+			l := op.L
+			op.L = 0
+			j, _ := jsonOf(&op)
+			cfg[l] = append(cfg[l], c09TwinNorm(j))
 		case op.Op == "new_root":
 			if op.R < 1 || op.R > 2 || len(op.Opts) < 3 || op.Opts[0].W != op.R || op.Opts[1].W != op.R {
 				return false
